@@ -583,6 +583,18 @@ def check_C05(tier, seed):
         "finite values and pass the C01-C04 comparisons; distinct = (input, embedding, cell) triples; non-vacuity: "
         "harness.runs_with_exact counts runs in which the exact predicate was consulted",
         profiles=("release", "dev"), with_tess=True)
+    # totality at design level: under weak fairness the cell machine always reaches pc = "done" (liveness, checked without VIEW
+    # or state constraint on small families)
+    for name, spec in (("D1p", FAMILIES["D1p"]), ("R3s", dict(FAMILIES["R3s"], order="fixed"))) + ((("P2a", dict(FAMILIES["P2a"], order="fixed", nmax=2)),) if tier == "thorough" else ()):
+        cfg = os.path.join(OUT, "tlc", "vcell_live_%s.cfg" % name)
+        consts = dict(Inputs=("<-", "MCInputs"), Ties="keep", Order=spec["order"], LGx=spec["G"][0], LGy=spec["G"][1], LGz=spec["G"][2], LDim=spec["dim"],
+                      LPer=spec["per"], LNmin=spec["nmin"], LNmax=spec["nmax"], LFix=spec["fix"], UseFile=False, Emit=False)
+        write_cfg(cfg, spec="LiveSpec", constants=consts, invariants=["TypeOK"], properties=["Terminates"])
+        r = run_tlc("mc/MCVCell.tla", cfg, env_extra={"VV_INPUTS": "/dev/null"}, timeout=1800)
+        if r.violation or not r.ok:
+            raise ToolError("VCell does not terminate in the model itself (%s): %s\n%s" % (name, r.violation or r.error, r.raw_tail[-1500:]))
+        out.coverage.setdefault("models", {})["VCell.Terminates/" + name] = dict(states=r.distinct, wall=round(r.wall, 1))
+        log("VCell liveness (Terminates) %s: %d states (%.1fs)" % (name, r.distinct, r.wall))
     # isolated near-ties: "a vertex is removed iff the integer oracle says inside" - the exact predicate (the tie breaker of every
     # clip decision) replayed on TLC's vectors, incl. co-spherical +-1 cases on the 52-bit grid, in both profiles
     cases_file = pred_cases(out, tier, "C05")
